@@ -63,7 +63,9 @@ def gen(cls, idx, rng, tier):
     if cls == "bigroot":
         # the root chip is any Ethernet chip of the machine, e.g. (16, 20)
         w, h = rng.choice([(12, 12), (24, 12), (36, 24), (48, 48), (20, 20),
-                           (8, 8), (rng.randint(1, 48), rng.randint(1, 48))])
+                           (8, 8), (rng.randint(1, 48), rng.randint(1, 48)),
+                           (12 * rng.randint(5, 21), 12 * rng.randint(5, 21)),
+                           (rng.randint(49, 255), rng.randint(49, 255))])
         return dict(kind="size", w=w, h=h, roots=[], big=[
             (rng.choice([0, 4, 8]) + 12 * rng.randint(1, 5) + d,
              rng.choice([0, 8, 4]) + 12 * rng.randint(1, 5) + d)
